@@ -1158,7 +1158,9 @@ void TasmanianSparseGrid::removePointsByHierarchicalCoefficient(int num_new_poin
     if (!isLocalPolynomial()){
         throw std::runtime_error("ERROR: removePointsBySurplus() called for a grid that is not Local Polynomial.");
     }else{
+        if (num_new_points < 0) throw std::invalid_argument("ERROR: removePointsByHierarchicalCoefficient() requires a non-negative number of points to keep");
         if (num_new_points == 0){ clear(); return; }
+        if (num_new_points >= getNumLoaded()) return; // keeps every point, the grid class indexes the points with this count
         get<GridLocalPolynomial>()->removePointsByHierarchicalCoefficient(num_new_points, output, scale_correction);
     }
 }
